@@ -2,7 +2,7 @@
 // generated problems; prints the fitted table (EV driver format), the derivative along monodim on a grid that
 // contains the knots of the fully supported region, and — for the inactive case — the unconstrained fit.
 //
-// usage: mono_harness <nfits> <cases.out> <impl.out> <stats.out>
+// usage: mono_harness <nfits> <cases.out> <impl.out> <stats.out> [<nfits of the small-magnitude family>]
 //        mono_harness replay <problem-file> <cases.out> <impl.out>
 //
 // cases.out                                   impl.out
@@ -10,6 +10,7 @@
 //   T <table>   (EV format)                     table
 //   M <monodim>                                 mono
 //   V d <mask> xbits* centers*                  <bits of ndsplineeval<double>(x, centers, 1<<monodim)>
+//   H <ncoef> <k> (mono-bits32 scaled-bits32)*  scaled        (small-magnitude inactive shape: monotonic fits of data and of 2^k * data)
 //   U <ncoef> (mono-bits32 unc-bits32)*         unc           (inactive case only: both coefficient vectors)
 #include "common.h"
 #include <photospline/splinetable.h>
@@ -19,6 +20,9 @@ using namespace psv;
 
 struct Problem {
   int ndim, monodim, shape;          // shape: 0 noisy increasing, 1 decreasing, 2 oscillating, 3 noise, 4 steps, 5 inactive (smooth increasing positive)
+                                     // small-magnitude family (gen with family=1): 6 gentle linear fall, 7 mixture (rise/steep part + gentle fall,
+                                     // or gentle fall + rise to a large amplitude), 8 plateau with tiny ripple/noise, 9 shapes 0..4 scaled to a tiny
+                                     // magnitude, 10 inactive shape at a small magnitude, 11 gentle drift of a table that is negative or crosses zero
   std::vector<uint32_t> order, porder;
   std::vector<std::vector<double>> knots, coords;
   std::vector<double> smooth;
@@ -55,24 +59,33 @@ static bool parse_problem(const std::string& line, Problem& p) {
   return (bool)in;
 }
 
-static Problem gen(Rng& r, long it, std::map<std::string, long>& stats) {
+// family 0: the original data shapes 0..5 (values of order 0.1 .. 100);
+// family 1: small-magnitude tables and gentle drifts (shapes 6..11): the step of the data from one spline coefficient to the next
+// along monodim is `delta` (log-uniform 1e-14 .. 1e-6, i.e. below, around and above any absolute tolerance of the solver),
+// and the magnitude S of the table is delta * 2^(2..22), so that a step of delta is NOT lost in the float32 storage of the
+// coefficients (ulp(S) < delta).
+static Problem gen(Rng& r, long it, std::map<std::string, long>& stats, int family = 0) {
   Problem p;
   p.ndim = 1 + (int)(it % 3);
   p.monodim = r.range(0, p.ndim - 1);
-  p.shape = (int)((it / 3) % 6);
+  p.shape = (int)((it / 3) % 6) + 6 * family;
   int maxord = p.ndim == 3 ? 2 : 4;
   int budget = 60;
+  bool longaxis = family == 1 && p.ndim == 1 && r.coin();   // 1-d with up to 60 coefficients (the solver's tolerance grows with their number)
   p.order.resize(p.ndim); p.porder.resize(p.ndim); p.smooth.resize(p.ndim); p.knots.resize(p.ndim); p.coords.resize(p.ndim);
   std::vector<int> naxes(p.ndim);
   while (true) {
     long tot = 1;
     for (int d = 0; d < p.ndim; d++) {
       p.order[d] = r.range(1, maxord);
-      int extra = p.ndim == 1 ? r.range(0, 7) : (p.ndim == 2 ? r.range(0, 3) : r.range(0, 1));
+      int extra = p.ndim == 1 ? (longaxis ? r.range(8, 55 - (int)p.order[d]) : r.range(0, 7)) : (p.ndim == 2 ? r.range(0, 3) : r.range(0, 1));
       naxes[d] = p.order[d] + 1 + extra; tot *= naxes[d];
     }
     if (tot <= budget) break;
   }
+  // small-magnitude family: half of the problems have several data points per coefficient and/or heavy weights (large normal equations)
+  bool dense = family == 1 && r.coin(), heavy = family == 1 && r.coin();
+  if (family == 1) { stats[dense ? "dense_abscissae" : "one_abscissa_per_coefficient"]++; stats[heavy ? "weights_up_to_2^12" : "weights_up_to_2^4"]++; }
   for (int d = 0; d < p.ndim; d++) {
     int nk = naxes[d] + p.order[d] + 1;
     int style = r.range(0, 1);
@@ -84,31 +97,87 @@ static Problem gen(Rng& r, long it, std::map<std::string, long>& stats) {
     p.smooth[d] = lams[r.range(0, 3)];
     // abscissae: a grid over (slightly more than) the fully supported region
     int npts = naxes[d] + r.range(2, 6);
+    if (dense) {                                            // several abscissae per coefficient (at most about 1000 rows in all)
+      int cap = p.ndim == 1 ? 1000 : (p.ndim == 2 ? 31 : 10);
+      npts = std::min(cap, naxes[d] * r.range(2, 6));
+      if (npts < naxes[d] + 2) npts = naxes[d] + 2;
+    }
     double lo = p.knots[d][p.order[d]], hi = p.knots[d][naxes[d]];
     p.coords[d].resize(npts);
     for (int i = 0; i < npts; i++) p.coords[d][i] = lo + (hi - lo) * (i + 0.5 * r.unit()) / npts;
     stats["order_" + std::to_string(p.order[d])]++;
   }
   // rows: the full grid with a random share of the cells missing (sparse data)
-  double drop = (p.shape == 5) ? 0.0 : (r.coin(1, 3) ? 0.0 : r.unit() * 0.5);
+  double drop = (p.shape == 5 || p.shape == 10) ? 0.0 : (r.coin(1, 3) ? 0.0 : r.unit() * 0.5);
   std::vector<unsigned> cell(p.ndim, 0);
   double amp = std::ldexp(1.0, r.range(-3, 6));
   double ph = r.unit() * 6.28;
+  // parameters of the small-magnitude family
+  double delta = 0, S = 0, D = 0, tb = 0.5, tb2 = 0.8; int variant = 0, sub = 0, big = 0, bigdim = -1; bool clean = true;
+  if (family == 1) {
+    delta = std::pow(10.0, -14 + 8 * r.unit());            // step per coefficient along monodim
+    S = delta * std::ldexp(1.0 + r.unit(), r.range(2, 21)); // magnitude of the table: ulp_float(S) < delta
+    D = delta * naxes[p.monodim];                           // total drift over the range
+    tb = 0.25 + 0.5 * r.unit();                             // where a mixture changes its character
+    variant = r.range(0, 2); sub = r.range(0, 4);
+    clean = r.coin(2, 3);                                   // otherwise: measurement noise of a fraction of delta on top
+    // half of the tables are small everywhere; the others are small only in a part of the domain and rise to a large
+    // amplitude `amp` elsewhere: late along monodim (big=1) or in a part of another dimension (big=2), so that the small
+    // steps are small also RELATIVE to the largest value / right-hand side of the problem
+    big = r.range(0, 3); big = big < 2 ? 0 : (big == 2 || p.ndim == 1 ? 1 : 2);
+    tb2 = 0.55 + 0.35 * r.unit();
+    if (big == 2) { bigdim = r.range(0, p.ndim - 2); if (bigdim >= p.monodim) bigdim++; }
+    if (r.coin(1, 4)) amp = S * std::ldexp(1.0, r.range(4, 30));   // or an amplitude relative to the small magnitude
+    if (big && r.coin()) {                                  // or the small part relative to the large one: S = amp * 1e-1..1e-10
+      if (r.coin(1, 3)) amp = std::ldexp(amp, -r.range(10, 40));
+      S = r.coin(1, 4) ? 0.0 : amp * std::pow(10.0, -1 - 9 * r.unit());   // S = 0: exactly zero before the onset (a cumulative distribution, say)
+      delta = r.coin(1, 4) ? 0.0 : S / std::ldexp(1.0 + r.unit(), r.range(2, 21));
+      D = delta * naxes[p.monodim];
+      stats["small_part_relative_to_large"]++;
+    }
+    if (p.shape == 6 || p.shape == 7 || p.shape == 8 || p.shape == 11) stats["big_" + std::to_string(big)]++;
+    if (p.shape == 9) amp = std::ldexp(1.0, -r.range(10, 45));
+    if (p.shape == 10) amp = std::ldexp(1.0, -r.range(7, 40));
+    stats[delta < 1e-11 ? "delta_lt_1e-11" : (delta < 1e-9 ? "delta_1e-11_1e-9" : "delta_ge_1e-9")]++;
+  }
   while (true) {
     if (r.unit() >= drop) {
       double t = (p.coords[p.monodim][cell[p.monodim]] - p.coords[p.monodim].front()) / (p.coords[p.monodim].back() - p.coords[p.monodim].front() + 1e-300);
       double other = 0; for (int d = 0; d < p.ndim; d++) if (d != p.monodim) other += 0.3 * std::sin(1.3 * p.coords[d][cell[d]] + d);
       double f;
-      switch (p.shape) {
+      double mult = 1.0 + other;                              // |other| <= 0.6: positive factor varying over the other dimensions
+      double eps = clean ? 0.0 : 0.3 * delta * (r.unit() - 0.5);
+      int shape = p.shape == 9 ? sub : (p.shape == 10 ? 5 : p.shape);
+      double bump = 0;
+      if (big == 1 && t > tb2) bump = amp * (t - tb2) * (t - tb2);
+      if (big == 2) {
+        double u = (p.coords[bigdim][cell[bigdim]] - p.coords[bigdim].front()) / (p.coords[bigdim].back() - p.coords[bigdim].front() + 1e-300);
+        if (u > tb2) bump = amp * (u - tb2) * (u - tb2) * (1 + t);
+      }
+      switch (shape) {
         case 0: f = 2 * t + other + 0.4 * (r.unit() - 0.5); break;          // noisy increasing
         case 1: f = 3 - 4 * t + other + 0.2 * (r.unit() - 0.5); break;      // decreasing
         case 2: f = std::sin(9 * t + ph) + other; break;                    // oscillating
         case 3: f = 4 * (r.unit() - 0.5); break;                            // pure noise, both signs
         case 4: f = (t > 0.5 ? 1.0 : -1.0) * (r.coin(1, 8) ? -1 : 1); break; // steps with outliers
+        case 6: f = (S - D * t) * mult + eps; break;                         // gentle linear fall of a small positive table
+        case 7:                                                               // mixtures
+          if (variant == 0) f = (S * (1 - std::pow(t < tb ? 1 - t / tb : 0.0, 4)) - (t > tb ? D * (t - tb) : 0.0)) * mult + eps;      // smooth rise, then gentle fall
+          else if (variant == 1) f = (S - D * t) * mult + (t > tb ? amp * (t - tb) * (t - tb) : 0.0) + eps;                              // gentle fall, then a rise to a large amplitude
+          else f = (S + (t < tb ? 0.5 * S * (tb - t) / tb : 0.0) - D * t) * mult + eps;                                                 // steep fall, then gentle fall
+          break;
+        case 8:                                                               // plateau with a ripple / noise of the size of delta
+          f = S * mult + (variant == 0 ? delta * std::sin(9 * t + ph) : (variant == 1 ? delta * 2 * (r.unit() - 0.5) : delta * std::sin(40 * t + ph) * t));
+          break;
+        case 11:                                                              // gentle drift of a table that is negative or crosses zero
+          if (variant == 0) f = (-S - D * t) * mult + eps;                    //   negative, falling
+          else if (variant == 1) f = (0.5 * D - D * t) * mult + eps;          //   falling through zero
+          else f = (-S + D * t) * mult + eps;                                 //   negative, rising gently (first coefficient clamped at 0)
+          break;
         default: f = 1.0 + 3 * t + 0.5 * t * t + 0.2 * (2 + other); break;   // smooth, positive, increasing: constraint inactive
       }
-      p.idx.push_back(cell); p.z.push_back(amp * f);
-      p.w.push_back(r.coin(1, 12) ? 0.0 : std::ldexp(1.0, r.range(-3, 3)) * (0.5 + r.unit()));
+      p.idx.push_back(cell); p.z.push_back(p.shape >= 6 && p.shape != 9 && p.shape != 10 ? f + bump : amp * f);
+      p.w.push_back(r.coin(1, 12) ? 0.0 : std::ldexp(1.0, r.range(-3, heavy ? 11 : 3)) * (0.5 + r.unit()));
     }
     int d = p.ndim - 1;
     while (d >= 0) { if (++cell[d] < p.coords[d].size()) break; cell[d] = 0; d--; }
@@ -180,7 +249,23 @@ static void run_problem(const Problem& p, Rng& r, std::map<std::string, long>& s
       stats["deriv_points"]++;
     }
   }
-  if (p.shape == 5) {
+  if (p.shape == 10) {
+    // scale equivariance: the monotonic fit of 2^k * data must be 2^k * (the monotonic fit of data); k brings the data to [1, 2)
+    double zmax = 0; for (double v : p.z) zmax = std::max(zmax, std::fabs(v));
+    if (zmax > 0 && std::isfinite(zmax)) {
+      int k = -std::ilogb(zmax);
+      Problem q = p; for (double& v : q.z) v = std::ldexp(v, k);
+      Table b; std::string e3;
+      if (do_fit(q, q.monodim, b, e3)) {
+        uint64_t nc = t.strides[0] * t.naxes[0];
+        fprintf(fc, "H %llu %d", (unsigned long long)nc, k);
+        for (uint64_t j = 0; j < nc; j++) fprintf(fc, " %u %u", bits(t.coefficients[j]), bits(b.coefficients[j]));
+        fprintf(fc, "\n"); fprintf(fi, "scaled\n");
+        stats["scaled_pairs"]++;
+      }
+    }
+  }
+  if (p.shape == 5 || p.shape == 10) {
     Table u; std::string e2;
     if (do_fit(p, Table::no_monodim, u, e2)) {
       uint64_t nc = t.strides[0] * t.naxes[0];
@@ -205,6 +290,10 @@ int main(int argc, char** argv) {
   fc = fopen(argv[2], "w"); fi = fopen(argv[3], "w");
   Rng r(env_seed() * 0x2545F4914F6CDD1DULL + 10);
   for (long it = 0; it < nfits; it++) { Problem p = gen(r, it, stats); run_problem(p, r, stats); fflush(fc); fflush(fi); }
+  // second stream (own generator state, so that the first stream is unchanged): small-magnitude tables and gentle drifts
+  long nsmall = argc >= 6 ? atol(argv[5]) : 0;
+  Rng r2(env_seed() * 0x2545F4914F6CDD1DULL + 1010);
+  for (long it = 0; it < nsmall; it++) { Problem p = gen(r2, it, stats, 1); run_problem(p, r2, stats); fflush(fc); fflush(fi); }
   fclose(fc); fclose(fi);
   std::ofstream fs(argv[4]);
   fs << "{"; bool first = true; for (auto& kv : stats) { fs << (first ? "" : ", ") << "\"" << kv.first << "\": " << kv.second; first = false; } fs << "}\n";
